@@ -471,6 +471,26 @@ func (r *Run) reportFailures(ld *Loaded, os_ []*OblResult, compMask func(string)
 			rf.Note = "the solver returned no counterexample (" + o.Note + "); the obligation is not discharged"
 		} else if noInput {
 			rf.Note = "the solver's model did not reproduce on the real code through the replay harness (or no harness exists for this obligation kind)"
+			if len(r.unmodelled) > 0 {
+				rf.Note += "; the tree has fields outside the state the contracts describe (" + strings.Join(keysOf(r.unmodelled), ", ") + "): their entry values are arbitrary in the obligation and zero in the replay, so a counterexample that needs a non-zero value there does not replay"
+			}
+		}
+		if o.bounded != nil && noInput {
+			// generated from a bounded unrolling: neither a proof nor - without a
+			// failing input on the real code - a refutation
+			rf.Note = "bounded stand-in (" + strings.Join(o.bounded, "; ") + "): the candidate counterexample did not reproduce on the real code; nothing is reported"
+			path := r.replayPath(o.Name)
+			data, _ := json.MarshalIndent(rf, "", " ")
+			os.MkdirAll(filepath.Dir(path), 0o755)
+			os.WriteFile(path, append(data, '\n'), 0o644)
+			r.mu.Lock()
+			msg := fmt.Sprintf("%s: %s (no counterexample that replays on the real code; an invariant is needed to decide it", o.Name, strings.Join(o.bounded, "; "))
+			if o.Status == "failed" {
+				msg += "; candidate that did not reproduce in " + path
+			}
+			r.Undecided = append(r.Undecided, msg+")")
+			r.mu.Unlock()
+			continue
 		}
 		path := r.replayPath(o.Name)
 		data, _ := json.MarshalIndent(rf, "", " ")
